@@ -192,6 +192,25 @@ def plain(value: Any) -> Any:
     return value
 
 
+def has_nested_mapping(desc: tuple, given: Dict[str, Any]) -> bool:
+    return any(not R.is_port(e) and isinstance(given.get(name), dict) for name, e in desc[5])
+
+
+def freeze_nested(desc: tuple, given: Dict[str, Any]) -> Dict[str, Any]:
+    """``given`` with the mapping of every *declared* namespace as an immutable mapping (a mapping under an undeclared,
+    dynamic key may as well be meant as a value: not touched)."""
+    from plumpy.utils import AttributesFrozendict
+
+    def freeze(e: tuple, mapping: Dict[str, Any]) -> Dict[str, Any]:
+        out = dict(mapping)
+        for name, sub in e[5]:
+            if not R.is_port(sub) and isinstance(mapping.get(name), dict):
+                out[name] = AttributesFrozendict(freeze(sub, mapping[name]))
+        return out
+
+    return freeze(desc, given)
+
+
 def declared_levels(desc: tuple, mapping: Any, path: Tuple[str, ...] = ()) -> Iterator[Tuple[Tuple[str, ...], Any]]:
     yield path, mapping
     for name, e in desc[5]:
@@ -267,6 +286,22 @@ def check_spec(desc: tuple) -> Dict[str, Any]:
                 continue
             if caller != snapshot:
                 violate('caller-dictionary-changed', {'before': snapshot, 'after': caller})
+            if has_nested_mapping(desc, snapshot):
+                # the same inputs with every nested mapping handed over as an immutable mapping (what the ``inputs`` of
+                # another process are made of): same verdict, same parsed inputs
+                out['n'] += 1
+                frozen_given = freeze_nested(desc, snapshot)
+                try:
+                    twin = cls(inputs=frozen_given, pid='c11f', loop=loop)
+                    twin_ok, twin_inputs = True, plain(twin.inputs)
+                    twin.close()
+                except Exception as exc:  # noqa: BLE001
+                    twin_ok, twin_inputs, twin_err = False, None, exc
+                if twin_ok != got_ok:
+                    violate('frozen-mappings:accepts-what-spec-rejects' if twin_ok else 'frozen-mappings:rejects-what-spec-accepts',
+                            {'model': want, 'impl': 'constructed' if twin_ok else repr(twin_err)})  # type: ignore[possibly-undefined]
+                elif twin_ok and twin_inputs != plain(proc.inputs):
+                    violate('frozen-mappings:inputs-differ', {'frozen': twin_inputs, 'plain': plain(proc.inputs)})
             if not got_ok:
                 out['rejected'] += 1
                 continue
@@ -381,12 +416,14 @@ def run_check(tier: str, seed: int, workers: Any) -> Dict[str, Any]:
                 'over {absent, 1, "a", -1} per port, {absent, {}, ...} per namespace and undeclared keys '
                 '{u:1, u:"a", u:{v:1}, u:{v:"a"}}; states = specs, distinct_nontrivial = specs with at least one '
                 'accepted and one rejected input; the first accepted inputs of every spec are constructed once more at the '
-                'end and must give the same inputs',
+                'end and must give the same inputs; every input with a nested mapping is given once more with all nested '
+                'mappings as immutable AttributesFrozendict and must get the same verdict and the same inputs',
         'samples': [{'spec': repr(sample_spec), 'inputs': repr(sample_inputs[len(sample_inputs) // 2])}],
         'exhaustive': True,
     }
     return {'violations': violations, 'coverage': coverage, 'errors': [], 'level': 'model_checking',
             'assumptions': ['outside the alphabet (statement silent): non-mapping values for a namespace, None as a value, '
+                            'immutable mappings at the top level (the constructor is annotated with dict), '
                             'one-argument validators, invalid static defaults of ports',
                             'presence of empty mappings for declared namespaces is not judged',
                             'the "random beyond" part of the quantifier is sampling and is not done (different family)'],
